@@ -718,6 +718,21 @@ def rule_merge_keeps_components(ck, F):
     ck.floor("R5", "component collections of RustDocument", len(comp_fields), 5)
 
 
+def _is_namespace_text(nf):
+    """the value is the `namespace` attribute of the import itself (through `?`, `ok_or`, `as_str`, .. only)"""
+    cur = nf
+    for _ in range(10):
+        if not isinstance(cur, tuple):
+            return False
+        if cur[0] == "payload":
+            cur = cur[2]
+        elif cur[0] == "call" and cur[2] and str(cur[1]).rsplit("::", 1)[-1] in ("ok_or", "ok_or_else", "as_str", "as_ref", "deref", "to_string", "to_owned", "clone", "expect", "unwrap", "trim"):
+            cur = cur[2][0]
+        else:
+            break
+    return isinstance(cur, tuple) and cur[0] == "call" and str(cur[1]).rsplit("::", 1)[-1] == "attribute" and len(cur[2]) == 2 and cur[2][1] == ("lit", "namespace")
+
+
 def rule_imports_followed(ck, F):
     """An import is not followed (an empty document stands for it) only for a reason that is exact: its namespace *is* one of the
     constant well-known namespaces, it has no schemaLocation, or its file was read already. A test on part of the namespace text
@@ -757,7 +772,7 @@ def rule_imports_followed(ck, F):
                 cond = CE.expand(c[1])
                 for call in og.nf_calls(cond):
                     name = str(call[1]).rsplit("::", 1)[-1]
-                    on_text = any("namespace" in og.nf_str(a_) for a_ in call[2])
+                    on_text = any(_is_namespace_text(a_) for a_ in call[2])
                     if on_text and (name in inexact or (name == "contains" and "str>" in str(call[1]))):
                         bad.append((name, og.nf_str(cond)[:140]))
             if bad:
